@@ -52,6 +52,10 @@ def queries(tier, seed=0):
             d = dict(q)
             d['fully_obs'] = fo
             qs.append(d)
+    # feature groups of different widths: more processes than services
+    wide = Shape([1, 1], 1, 1, 3).to_json()
+    for kind, nm in (('process_scan', None), ('exploit', 's0'), ('privesc', 'p2')):
+        qs.append(dict(shape=wide, kind=kind, target=[1, 0], name=nm, os=None, level='gen', fully_obs=False, host_fw=False))
     shapes = {}
     for q in qs:
         shapes[str(q['shape'])] = q['shape']
